@@ -421,15 +421,34 @@ func isDangerousProcPath(path string) bool {
 	}
 }
 
+// normalizeProcMagicPrefix rewrites a leading /proc/self or /proc/thread-self to the
+// tracee's own /proc entries without touching the rest of the path: the components must
+// stay as written because ".." after a symbolic link is resolved physically by the kernel.
+func normalizeProcMagicPrefix(pid int, p string) string {
+	traceeProc := "/proc/" + strconv.Itoa(pid)
+	for _, m := range []struct{ prefix, repl string }{
+		{"/proc/self", traceeProc},
+		{"/proc/thread-self", traceeProc + "/task/" + strconv.Itoa(pid)},
+	} {
+		if p == m.prefix {
+			return m.repl
+		}
+		if strings.HasPrefix(p, m.prefix+"/") {
+			return m.repl + p[len(m.prefix):]
+		}
+	}
+	return p
+}
+
 func resolveTraceePath(pid int, base string, p string) string {
-	p = normalizeProcMagicPath(pid, p)
+	p = normalizeProcMagicPrefix(pid, p)
 	if !filepath.IsAbs(p) {
 		if base == "" {
 			base = getProcCwd(pid)
 		}
-		p = filepath.Join(base, p)
+		// no lexical cleaning here: "link/.." is not the directory holding link
+		p = base + "/" + p
 	}
-	p = filepath.Clean(p)
 
 	for range maxSymlinkDepth {
 		next, changed := resolveTraceePathOnce(pid, p)
@@ -438,7 +457,7 @@ func resolveTraceePath(pid int, base string, p string) string {
 		}
 		p = next
 	}
-	return p
+	return filepath.Clean(p)
 }
 
 func resolveTraceePathOnce(pid int, p string) (string, bool) {
@@ -473,16 +492,16 @@ func resolveTraceePathOnce(pid int, p string) (string, bool) {
 			cur = candidate
 			continue
 		}
-		target = normalizeProcMagicPath(pid, target)
+		target = normalizeProcMagicPrefix(pid, target)
 		if !filepath.IsAbs(target) {
-			target = filepath.Join(filepath.Dir(candidate), target)
+			// cur is fully resolved, so it is the directory that holds the link
+			target = cur + "/" + target
 		}
-		target = filepath.Clean(target)
-
+		// keep the remaining components as written (they are walked physically next round)
 		if i+1 < len(rest) {
-			target = filepath.Join(target, filepath.Join(rest[i+1:]...))
+			target = target + "/" + strings.Join(rest[i+1:], "/")
 		}
-		return filepath.Clean(target), true
+		return target, true
 	}
 	return filepath.Clean(cur), false
 }
